@@ -20,4 +20,7 @@ def run(ctx):
                 r.rule += "@" + fs
                 r.floor = None
         out += res
+    if ctx.tier == "thorough":
+        from vlib import expanded
+        out.append(expanded.cross_check("C03"))
     return out
